@@ -54,7 +54,7 @@ Definition insert_at (l : list name) (i : nat) (x : name) : list name := firstn 
 Definition remove_last (k : name) (l : list name) : list name :=
   match find_last k l with Some i => firstn i l ++ skipn (S i) l | None => l end.
 
-(* the while(true) loop of InsertOrderedChild: "I<counter++>" until no child has that name *)
+(* the while(true) loop of InsertOrderedChild: "I<counter++>" until no child has that name (at most one collision per child) *)
 Fixpoint gen_name (t : tree) (p : path) (c : N) (fuel : nat) : name * N :=
   match fuel with
   | 0 => (iname c, N.succ c)
@@ -65,7 +65,7 @@ Fixpoint gen_name (t : tree) (p : path) (c : N) (fuel : nat) : name * N :=
 Fixpoint plan_names (t : tree) (pp : path) (c : N) (items : list (option name * payload)) : N * list (name * option name * payload) :=
   match items with
   | [] => (c, [])
-  | it :: r => let nc := gen_name t pp c (S (length t)) in
+  | it :: r => let nc := gen_name t pp c (S (length (children t pp))) in
                let rest := plan_names t pp (snd nc) r in
                (fst rest, (fst nc, fst it, snd it) :: snd rest)
   end.
@@ -107,31 +107,37 @@ Inductive ocmd :=
 
 Definition key_matcher (key : spath * option qfilter) : matcher := m_of_list [(unslash (fst key), snd key)].
 
+(* the paths of the nodes the traversal from the session's directory calls back on, in order *)
+Definition visit_paths (t : tree) (ss : session) (key : spath * option qfilter) : list path :=
+  map n_path (visits t (key_matcher key) (session_dir ss) true (fx_guard fx)).
+
+Definition plan := (path * (N * list (name * option name * payload)))%type.
+
 Definition do_insert (nest : nat) (os : oserver) (ss : session) (key : spath * option qfilter) (items : list (option name * payload)) : oserver :=
   let x := o_x os in
   let t := sv_tree (xs_sv x) in
   let dir := session_dir ss in
-  let vs := visits t (key_matcher key) dir true (fx_guard fx) in
-  let plans := map (fun n => (n_path n, plan_names t (n_path n) (ctr_get (o_ctr os) (n_path n)) items)) vs in
-  let sitems := flat_map (fun pl : path * (N * list (name * option name * payload)) =>
+  let plans : list plan := map (fun p => (p, plan_names t p (ctr_get (o_ctr os) p) items)) (visit_paths t ss key) in
+  let sitems := flat_map (fun pl : plan =>
                             map (fun e : name * option name * payload => (false, skipn (length dir) (fst pl) ++ [fst (fst e)], snd e)) (snd (snd pl))) plans in
   let x' := xhandle fx nest x (s_id ss) (XSetData 0 sitems) in
   let t' := sv_tree (xs_sv x') in
-  let idx' := fold_left (fun ix (pl : path * (N * list (name * option name * payload))) =>
+  let idx' := fold_left (fun ix (pl : plan) =>
                            idx_set ix (fst pl)
                              (fold_left (fun l (e : name * option name * payload) =>
                                            if has_node t' (fst pl ++ [fst (fst e)]) then idx_insert l (snd (fst e)) (fst (fst e)) else l)
                                         (snd (snd pl)) (idx_get ix (fst pl)))) plans (o_idx os) in
-  let ctr' := fold_left (fun ct (pl : path * (N * list (name * option name * payload))) => ctr_set ct (fst pl) (fst (snd pl))) plans (o_ctr os) in
+  let ctr' := fold_left (fun ct (pl : plan) => ctr_set ct (fst pl) (fst (snd pl))) plans (o_ctr os) in
   oprune (mkO x' idx' ctr').
+
+Definition reorder_at (t : tree) (b : option name) (ix : itbl) (p : path) : itbl :=
+  let parent := removelast p in
+  idx_set ix parent (reorder_one t (idx_get ix parent) parent (last p 0%N) b).
 
 Definition do_reorder (os : oserver) (ss : session) (fields : list (spath * option name)) : oserver :=
   let t := sv_tree (xs_sv (o_x os)) in
-  let dir := session_dir ss in
-  let idx' := fold_left (fun ix (f : spath * option name) =>
-                           fold_left (fun ix' n => let parent := removelast (n_path n) in
-                                                   idx_set ix' parent (reorder_one t (idx_get ix' parent) parent (last (n_path n) 0%N) (snd f)))
-                                     (visits t (key_matcher (fst f, None)) dir true (fx_guard fx)) ix) fields (o_idx os) in
+  let idx' := fold_left (fun ix (f : spath * option name) => fold_left (reorder_at t (snd f)) (visit_paths t ss (fst f, None)) ix)
+                        fields (o_idx os) in
   oprune (mkO (o_x os) idx' (o_ctr os)).
 
 Definition opush (os : oserver) : oserver :=
